@@ -106,8 +106,20 @@ def run_state(args):
            "endpoint": [{"name": "E", "url": "http://127.0.0.1:9/dir", "tos_agreed": True}],
            "account": [{"name": "a", "contacts": [{"mailto": "a@example.org"}]}],
            "certificate": [{"name": "sched", "account": "a", "endpoint": "E", "key_type": "ecdsa_p256", "hooks": [],
-                            "renew_delay": "%ds" % st["d"], "random_early_renew": "%ds" % st["j"],
                             "identifiers": [{k: v, "challenge": "http-01"} for k, v in ids]}]}
+    # the two periods are given at the certificate, the endpoint or the global level in turn, and - fourth way - at the endpoint with
+    # OTHER values at the global level (the more specific level is the one in force)
+    opts = {"renew_delay": "%ds" % st["d"], "random_early_renew": "%ds" % st["j"]}
+    where = idx % 4
+    if where == 0:
+        cfg["certificate"][0].update(opts)
+    elif where == 1:
+        cfg["endpoint"][0].update(opts)
+    elif where == 2:
+        cfg["global"].update(opts)
+    else:
+        cfg["endpoint"][0].update(opts)
+        cfg["global"].update({"renew_delay": "%ds" % (st["d"] + 7 * scale * UNIT), "random_early_renew": "%ds" % (st["j"] + 3 * scale * UNIT)})
     conf = os.path.join(d, "acmed.toml")
     open(conf, "w").write(toml_dumps(cfg))
     r = probe("schedule", {"config": conf, "samples": SAMPLES})
